@@ -95,8 +95,15 @@ fn entry_from_fs_metadata(
     let mtime = metadata
         .modified()
         .expect("Failed to get file mtime")
-        .try_into()
-        .expect("Failed to convert file mtime to Timestamp");
+        .try_into();
+    let mtime = match mtime {
+        Ok(mtime) => mtime,
+        Err(_) => {
+            return Err(Error::InvalidMetadata {
+                details: "file modification time is outside the supported range".to_string(),
+            });
+        }
+    };
     let kind_meta = if metadata.is_file() {
         KindMeta::File {
             size: metadata.len(),
